@@ -721,4 +721,24 @@ example : lexStringBody 39 false 1 [97, 92, 39, 98] = .error (.stringError, 5) :
 example : lexStringBody 39 false 1 [97, 10, 39] = .error (.eolInString, 3) := rfl
 
 
+
+/-! ### non-ASCII characters in bytes literals, at every position -/
+/-- **Non-ASCII bytes literals.**  A bytes literal whose body contains a non-ASCII character is
+    rejected wherever that character stands — as plain text (`parse_bytes`), directly after a backslash
+    (the fallback arm of `parse_escaped_char`), after or inside another escape — for plain and raw
+    prefixes alike. -/
+theorem bytesLit_rejects_nonAscii (raw : Bool) (body : List Nat) (h : nonAscii body) :
+    bytesLit raw body ≠ none :=
+  bytesGo_rejects _ raw 0 body (Nat.lt_succ_self _) h
+
+/-- … and the rule is only ever reported for a body that does contain such a character -/
+theorem bytesLit_nonAscii_only (raw : Bool) (body : List Nat) (off : Nat)
+    (h : bytesLit raw body = some (.nonAsciiBytes, off)) : nonAscii body :=
+  bytesGo_nonAscii_only _ raw 0 body off h
+
+example : bytesLit false [92, 233] = some (.nonAsciiBytes, 3) := by decide            -- b'\é'
+example : bytesLit false [92, 120, 52, 49, 92, 233] = some (.nonAsciiBytes, 7) := by decide   -- b'\x41\é'
+example : bytesLit true [92, 233] = some (.nonAsciiBytes, 3) := by decide             -- rb'\é'
+
+
 end PV.C04
